@@ -48,6 +48,8 @@ func TestC18Distribution(t *testing.T) {
 		blocks := rapid.IntRange(1, 5).Draw(t, "blocks")
 		inflows := genInflows(t, cfg, blocks, 30)
 		events := 0
+		drawRolledBack(t, blocks)
+		defer func() { rolledBackAfter, restartAfter = nil, nil }()
 		_, r := runDistrCase(t, cfg, inflows, blocks, func(r *DistrRun) {
 			// sums per sub-distributor from events
 			sum := map[string]RatCoins{}
